@@ -645,7 +645,7 @@ class Tr:
             return (f'({im.group(1)} : {"Int" if t in PRIM_INT else "Nat"})'), t
         if c in ('true', 'false'): return c, 'bool'
         if c.endswith('consts::PI'): return '(Flt.pi)', 'f64'
-        if c == 'u8::MAX': return '(255 : Nat)', 'u8'
+        if c == 'u8::MAX' or re.match(r'^(?:core|std)::num::<impl u8>::MAX$', c): return '(255 : Nat)', 'u8'
         if re.match(r'^(?:(?:std|core)::)?f64::(?:<impl f64>::)?EPSILON$', c):      # 2^-52, exactly representable
             return f'(Flt.lit 0x3CB0000000000000 1 {2**52})', 'f64'
         pm = re.search(r'::promoted\[(\d+)\]$', c)
@@ -809,10 +809,12 @@ class Tr:
         if re.match(r'^Option::<.*>::unwrap_or$', callee): a = av(); return f'(Option.getD {a[0]} {a[1]})', 'pure'
         if re.match(r'^Option::<.*>::unwrap$', callee): return f'(Res.ofOption {av()[0]})', 'mon'
         if re.match(r'^<(Vec<.*>|String) as Deref>::deref$', callee): return av()[0], 'pure'
-        if re.match(r'^<&?str as ToString>::to_string$', callee) or callee in ('<String as From<&str>>::from',): return av()[0], 'pure'
+        if re.match(r'^<&?str as ToString>::to_string$', callee) or callee in ('<String as From<&str>>::from', '<str as ToOwned>::to_owned', 'str::to_owned', 'core::str::<impl str>::to_owned', 'alloc::str::<impl str>::to_owned'): return av()[0], 'pure'
         m = re.match(r'^<(\w+) as Default>::default$', callee)
         if m and m.group(1) in ('f64', 'u8'): return self.default_of(m.group(1)), 'pure'
         if re.match(r'^Vec::<.*>::new$', callee): return '[]', 'pure'
+        if re.match(r'^Vec::<.*>::with_capacity$', callee): return '[]', 'pure'      # capacity is not observable
+        if re.match(r'^(alloc::)?slice::<impl \[.*\]>::to_vec$', callee): return av()[0], 'pure'
         if re.match(r'^Vec::<.*>::push$', callee):
             a1 = self.operand(args[1], env)[0]
             return ('Vec.push', a1), 'mutself'
@@ -844,7 +846,10 @@ class Tr:
         if m:
             k = m.group(1)
             it = self.operand(args[0], env)[0]
-            if k == 'collect': return it, 'pure'
+            if k == 'collect':
+                # a String can be collected from chars only (from Strings it would be a concatenation, not modelled)
+                if re.search(r'collect::<(std::string::)?String>$', callee) and not re.search(r'(Iter<.*char>|Chars) as Iterator', callee): raise Unsupported('collect into String from ' + callee)
+                return it, 'pure'
             if k == 'map': return f'(List.map (fun x => {self.closure_of(args[1])} () x) {it})', 'pure'
             if k == 'all': return f'(List.all {it} (fun x => {self.closure_of(args[1])} () x))', 'pure'
             if k == 'fold':
@@ -1507,6 +1512,15 @@ def main():
             hdr = f'def {f.lean_name} {ab} {tps} {" ".join(dicts)} {fuel}{" ".join(params)} : {rett} :='
             hdr = re.sub(r' +', ' ', hdr)
             txt = '\n\n'.join(tr.loops + [hdr + '\n' + '\n'.join(render_block(body, 1, f.monadic))])
+            # loop functions are named after a MIR basic-block number, which moves when unrelated statements are added: with the
+            # same number of loops as the reference, keep the reference's names (in order of definition)
+            new_loops = []
+            for ln_ in re.findall(r'^def (' + re.escape(f.lean_name) + r'\.loop\d+)\b', txt, flags=re.M):
+                if ln_ not in new_loops: new_loops.append(ln_)
+            ref_loops = [k_ for k_ in refb_early if re.match('^' + re.escape(f.lean_name) + r'\.loop\d+$', k_)]
+            if new_loops and len(new_loops) == len(ref_loops) and new_loops != ref_loops:
+                for i_, ln_ in enumerate(new_loops): txt = re.sub(re.escape(ln_) + r'(?!\d)', f'@@LOOP{i_}@@', txt)
+                for i_, rn_ in enumerate(ref_loops): txt = txt.replace(f'@@LOOP{i_}@@', rn_)
             emitted[f.lean_name] = (txt, tr.calls)
             report['translated'].append({'name': f.lean_name, 'path': f.path, 'monadic': f.monadic, 'fuel': f.needs_fuel,
                                          'asserts': getattr(tr, 'genuine_asserts', 0), 'params': [t for _, t in f.params], 'ret': f.ret,
@@ -1607,6 +1621,9 @@ def _canon(text):
                 items.append(t)
         # x.powi(2) is compiler-rt's 1.0 * (x * x), and 1.0 * y = y exactly in IEEE-754: the same function as x * x, bit for bit
         if len(items) == 3 and items[1] == ':' and items[2] == 'α' and items[0] in REF_SCALAR_CONSTS: return REF_SCALAR_CONSTS[items[0]]
+        # x / 2 and x * 0.5 are the same correctly rounded value for every binary64 x (scaling by a power of two)
+        if len(items) == 3 and items[1] == '/' and items[2] == _LIT_TWO: return '(half ' + items[0] + ')'
+        if len(items) == 3 and items[1] == '*' and _LIT_HALF in (items[0], items[2]): return '(half ' + (items[2] if items[0] == _LIT_HALF else items[0]) + ')'
         if len(items) == 3 and items[0] == 'Flt.powi' and items[2] == '(2 : Int)': return '(sq ' + items[1] + ')'
         if len(items) == 3 and items[1] == '*' and items[0] == items[2]: return '(sq ' + items[0] + ')'
         if len(items) == 3 and items[1] in ('+', '*'):
@@ -1634,6 +1651,9 @@ def _ref_blocks(path):
         m = re.match(r'^\s*def (\S+)', b)
         if m: blocks[m.group(1)] = b.strip('\n')
     return blocks
+
+_LIT_TWO = '(Flt.lit 0x4000000000000000 2 1)'
+_LIT_HALF = '(Flt.lit 0x3FE0000000000000 1 2)'
 
 REF_SCALAR_CONSTS = {}     # 'C.NAME' -> literal text '(Flt.lit 0x.. n d)' as defined in the reference file
 
@@ -1684,6 +1704,18 @@ def _walk(s, i, refmap, collect):
         want = refmap.get('form:' + lit)
         if want and want != 'lit' and REF_SCALAR_CONSTS.get(want) == lit: return '(' + want + ' : α)', lit, j + 1
         return '(' + ''.join(pieces) + ')', lit, j + 1
+    hform = None
+    if len(items) == 3 and items[1][0] == '/' and items[2][1] == _LIT_TWO: hform, ht, hc = 'div', items[0][0], items[0][1]
+    elif len(items) == 3 and items[1][0] == '*' and items[2][1] == _LIT_HALF: hform, ht, hc = 'mul', items[0][0], items[0][1]
+    elif len(items) == 3 and items[1][0] == '*' and items[0][1] == _LIT_HALF: hform, ht, hc = 'mul', items[2][0], items[2][1]
+    if hform:
+        node = '(half ' + hc + ')'
+        if collect is not None:
+            collect.setdefault(node, hform); return '(' + ''.join(pieces) + ')', node, j + 1
+        want = refmap.get(node)
+        if want == 'div' and hform == 'mul': return '(' + ht + ' / ' + _LIT_TWO + ')', node, j + 1
+        if want == 'mul' and hform == 'div': return '(' + ht + ' * ' + _LIT_HALF + ')', node, j + 1
+        return '(' + ''.join(pieces) + ')', node, j + 1
     sqform = None
     if len(items) == 3 and items[0][0] == 'Flt.powi' and items[2][1] == '(2 : Int)': sqform, sqt, sqc = 'powi', items[1][0], items[1][1]
     elif len(items) == 3 and items[1][0] == '*' and items[0][1] == items[2][1]: sqform, sqt, sqc = 'mul', items[0][0], items[0][1]
@@ -1768,12 +1800,13 @@ def inline_new_helpers(emitted, ref):
     done = set()
     for name, (txt, calls) in list(emitted.items()):
         if name in ref or '\n\n' in txt.strip('\n'): continue          # known to the reference, or has loop definitions
-        m = re.match(r'^def (\S+) (\{α : Type\} \[Flt α\] )?((?:\([^()]*? : [^()]*(?:\([^()]*\)[^()]*)*\) ?)*): (.+?) :=\n(.*)$', txt.strip('\n'), flags=re.S)
+        m = re.match(r'^def (\S+) (\{α : Type\} \[Flt α\] |\(α : Type\) \[Flt α\] )?((?:\([^()]*? : [^()]*(?:\([^()]*\)[^()]*)*\) ?)*): (.+?) :=\n(.*)$', txt.strip('\n'), flags=re.S)
         if not m or m.group(1) != name: continue
         rett, body = m.group(4).strip(), m.group(5)
         if rett.startswith('Res ') or 'fuel' in m.group(3) or name in calls: continue
         params = re.findall(r'\((\w+) : ((?:[^()]|\([^()]*\))*)\)', m.group(3))
         if not params: continue
+        explicit_alpha = bool(m.group(2)) and m.group(2).startswith('(α')
         lines = [l.strip() for l in body.split('\n') if l.strip()]
         if any(l.startswith('match ') or l.startswith('|') or '←' in l for l in lines): continue
         flat = ' '.join((l + ';') if l.startswith('let ') else l for l in lines)
@@ -1785,6 +1818,7 @@ def inline_new_helpers(emitted, ref):
                 k = ctxt.find('(' + name + ' ', i)
                 if k < 0: out.append(ctxt[i:]); break
                 r = _split_args(ctxt, k + len(name) + 2)
+                if r is not None and explicit_alpha and r[0] and r[0][0] == 'α': r = (r[0][1:], r[1])
                 if r is None or len(r[0]) != len(params): out.append(ctxt[i:k + 1]); i = k + 1; continue
                 args, end = r
                 _inl_counter[0] += 1
